@@ -5,6 +5,7 @@ package main
 
 import (
 	"fmt"
+	"sort"
 	"go/token"
 	"go/types"
 	"strings"
@@ -623,6 +624,29 @@ func (e *Engine) specFunc(y *ECall, env *evalEnv) (Val, bool) {
 			return e.evalErr("sdk.Msg type not found"), true
 		}
 		return Val{S: app("tx_msgs", x.S), T: types.NewSlice(mt)}, true
+	case "nothing_written":
+		// nothing_written(): every module store, bank balances and supply are as at function entry
+		var cs []string
+		var ks []string
+		for k := range e.heapSorts {
+			if strings.HasPrefix(k, "G_") {
+				ks = append(ks, k)
+			}
+		}
+		sort.Strings(ks)
+		for _, k := range ks {
+			cur, old := e.heap(env.st, k, e.heapSorts[k]), e.heap(env.old, k, e.heapSorts[k])
+			if cur != old {
+				cs = append(cs, eq(cur, old))
+			}
+		}
+		return Val{S: and(cs...), T: specBool}, true
+	case "lower":
+		e.vc.declFun("str_lower", []string{"Str"}, "Str")
+		return Val{S: app("str_lower", arg(0).S), T: types.Typ[types.String]}, true
+	case "addrstr":
+		e.declAddrStr()
+		return Val{S: app("addr_str", arg(0).S), T: addrT}, true
 	case "allocated":
 		// allocated(p): p refers to an object that exists at this point (not nil, allocated earlier)
 		p := arg(0)
